@@ -1,7 +1,7 @@
 """C15 configuration for ./check (see checks/propcfg.py for the keys)."""
 CFG = {
-    "modules": ["VaxisModel.Props.C15", "VaxisModel.Witness.F43", "VaxisModel.Witness.F115a", "VaxisModel.Witness.F115b"],
-    "extractors": [],
+    "modules": ["VaxisModel.Props.C15", "VaxisModel.Props.C15Gen", "VaxisModel.Witness.F43", "VaxisModel.Witness.F115a", "VaxisModel.Witness.F115b"],
+    "extractors": ["C15"],
     "drivers": ["C15", "C15Run"],
     "stateful": True,
     "trivial_prefix": ("-;",),
